@@ -2,6 +2,7 @@ package main
 
 import (
 	"bytes"
+	"fmt"
 
 	"github.com/cloudflare/pat-go/tokens/type3"
 	"verif/harness/internal/h"
@@ -189,5 +190,42 @@ func runC20(c *h.Ctx) {
 		}
 		byBlocks[b] = l
 		c.Count("wire-len:bucket-sweep", 1, "")
+	}
+	// the same sweep under name keys with every supported KDF / AEAD (as a peer may publish them): the bucket size is 32
+	// bytes whatever the HPKE suite; the request grows by exactly 32 bytes per block
+	pkBytes := env.nameKey.Marshal()
+	if len(pkBytes) == 1+2+32+4 {
+		for _, kdf := range []uint16{1, 2, 3} {
+			for _, aead := range []uint16{1, 2, 3} {
+				encap := cat(pkBytes[:35], u16b(kdf), u16b(aead))
+				nk, err := type3.UnmarshalEncapKey(encap)
+				if err != nil {
+					continue
+				}
+				base := -1
+				for _, n := range []int{0, 1, 31, 32, 33, 47, 48, 49, 63, 64, 65, 95, 96, 97, 128, 129} {
+					var st type3.RateLimitedTokenRequestState
+					var err error
+					pan, _ := h.Protect(func() {
+						st, err = client.CreateTokenRequest(nil, rnd(c, 32), rnd(c, 48), env.tokenKeyID, env.issuer.TokenKey(), string(nameOfLen(c, n, 0)), nk)
+					})
+					c.Count("wire-len:other-hpke-suites", 1, fmt.Sprint(kdf, aead, n))
+					if pan || err != nil {
+						continue
+					}
+					l := len(st.Request().Marshal())
+					b := (n + 31) / 32
+					if b == 0 {
+						b = 1
+					}
+					if base < 0 {
+						base = l - 32*b
+					}
+					if l != base+32*b {
+						c.Violation("the request length depends on the origin name only through its number of 32-byte blocks, under every HPKE suite of the name key", map[string]any{"kdf": kdf, "aead": aead, "name_len": n, "wire": l, "want": base + 32*b})
+					}
+				}
+			}
+		}
 	}
 }
